@@ -596,6 +596,12 @@ impl NetworkBuilder {
             mpsc::channel(NETWORKING_CHANNEL_SIZE);
         let (local_swarm_cmd_sender, local_swarm_cmd_receiver) =
             mpsc::channel(NETWORKING_CHANNEL_SIZE);
+        #[cfg(feature = "verif-hooks")]
+        let (local_swarm_cmd_sender, local_swarm_cmd_receiver) =
+            match verif_hooks::local_cmd_channel_size() {
+                Some(size) => mpsc::channel(size),
+                None => (local_swarm_cmd_sender, local_swarm_cmd_receiver),
+            };
 
         // Kademlia Behaviour
         let kademlia = {
